@@ -1441,12 +1441,17 @@ class Interp:
             raise Unsupported("for-else over an abstract collection")
         names, subs, attrs, calls = assigned_names(s.body)
         # generic element
+        summary_src = None
         if isinstance(src, AbsColl):
             elem = src.elem(self, cx.fresh_name(src.name + "_e"))
-            pre = []
+            src = src.origin
         else:
-            # iterate over the result of an earlier map loop: generic emitted item
-            raise Unsupported("iteration over a map-rule summary")
+            # iteration over the result of an earlier map loop: the generic
+            # element of the original source, every case, every emitted item
+            summary_src = src.summary
+            elem = summary_src.elem
+            if summary_src.raising is None:
+                raise Unsupported("iteration over an incomplete summary")
         t0 = now()
         frame = {"t0": t0, "emit": {}, "accs": {}}
         saved_vars = dict(env.vars)
@@ -1463,18 +1468,30 @@ class Interp:
                 e.vars[n] = Poison("loop-carried dependency (map rule)")
             frame["emit"] = {}
 
+        def run_body(item):
+            self.assign(s.target, item, env)
+            try:
+                self.exec_block(s.body, env)
+            except ContinueEx:
+                pass
+            except BreakEx:
+                raise Unsupported("break in a map-rule loop")
+            except ReturnEx:
+                raise Unsupported("return in a map-rule loop")
+
         def body():
             self.map_mode.append(frame)
             try:
-                self.assign(s.target, elem, env)
-                try:
-                    self.exec_block(s.body, env)
-                except ContinueEx:
-                    pass
-                except BreakEx:
-                    raise Unsupported("break in a map-rule loop")
-                except ReturnEx:
-                    raise Unsupported("return in a map-rule loop")
+                if summary_src is None:
+                    run_body(elem)
+                else:
+                    k = cx.choose(len(summary_src.cases)) if summary_src.cases else None
+                    if k is None:
+                        raise PathEnd()
+                    cond, items = summary_src.cases[k]
+                    cx.assume(cond)
+                    for it in items:
+                        run_body(it)
             finally:
                 self.map_mode.pop()
             return {k: list(v) for k, v in frame["emit"].items()}
@@ -1512,7 +1529,7 @@ class Interp:
             ne = cx.fresh_bool("nonempty_" + lname.split("::")[-1])
             if cont.items:
                 raise Unsupported("map-rule accumulator not empty before the loop")
-            cont.summary = MapSummary(src, elem, cases, ne,
+            cont.summary = MapSummary(src if summary_src is None else summary_src.source, elem, cases, ne,
                                       [z3.And(c) if c else z3.BoolVal(True) for c, _ in raising])
             # some-emit(elem) => nonempty   (elem is an arbitrary element)
             some = z3.Or([c for c, items in cases if items]) if any(items for _, items in cases) else z3.BoolVal(False)
